@@ -193,3 +193,37 @@ package op
 //@   requires validDyn(a) && validDyn(b)
 //@   ensures 1 <= va && va <= 127 && 1 <= vb && vb <= 127
 //@   ensures loudness(a) < loudness(b) ==> va < vb
+
+// the ring NewCircleOfFifth builds is the well-formed one: position i holds exactly the supported keys with circle index i
+//@ func lemmaC14Built returns (c)
+//@   ensures wfCOF(c)
+
+// one step, as a function of the conversion: semitone offset of the tonic and whether the mode flips
+//@ define validConv(x) x == ParallelKey || x == RelativeKey || x == DominantKey || x == SubDominantKey
+//@ define flips(x) x == ParallelKey || x == RelativeKey
+//@ define shift(x, minor) ite(x == DominantKey, 7, ite(x == SubDominantKey, 5, ite(x == ParallelKey, 0, ite(minor, 3, 9))))
+//@ define keysAt(m, minor, semi) forall(k, Key, dom(m.scales, k) == (supported(k) && k.Minor == minor && spec.fmod(ksemi(k) - semi, 12) == 0))
+//@ func lemmaC14Step returns (m, err)
+//@   enumerate key in keySignatures
+//@   requires wfCOF(c) && validConv(conv)
+//@   ensures (err == nil) == supported(key)
+//@   ensures err == nil ==> keysAt(m, key.Minor != flips(conv), ksemi(key) + shift(conv, key.Minor))
+
+// two steps compose; the result does not depend on the spelling mid the intermediate member is read by,
+// dominant and subdominant undo each other, relative and parallel undo themselves
+//@ func lemmaC14Two returns (m2, ok)
+//@   requires wfCOF(c) && validConv(first) && validConv(second) && supported(key)
+//@   requires supported(mid) && mid.Minor == (key.Minor != flips(first)) && spec.fmod(ksemi(mid) - ksemi(key) - shift(first, key.Minor), 12) == 0
+//@   ensures ok
+//@   ensures keysAt(m2, key.Minor != flips(first) != flips(second), ksemi(key) + shift(first, key.Minor) + shift(second, mid.Minor))
+//@   ensures (first == DominantKey && second == SubDominantKey || first == SubDominantKey && second == DominantKey) ==> dom(m2.scales, key)
+//@   ensures (first == RelativeKey && second == RelativeKey || first == ParallelKey && second == ParallelKey) ==> dom(m2.scales, key)
+
+// a chain of any length succeeds from every supported key, whichever spellings are read on the way
+//@ func lemmaC14Chain returns (m, ok)
+//@   requires wfCOF(c) && supported(key) && len(picks) >= len(cc)
+//@   requires forall(i, 0, len(cc), validConv(cc[i]))
+//@   ensures ok
+//@   loop 0 invariant 0 <= i && i <= len(cc) && supported(cur)
+//@   loop 0 decreases len(cc) - i
+//@   loop 0 modifies CircleMember
